@@ -3,6 +3,7 @@ package sim
 // C11 — fault enumeration: every API-call index of a scripted scenario × every fault kind.
 
 import (
+	"os"
 	"encoding/json"
 	"fmt"
 	"math/rand/v2"
@@ -34,7 +35,9 @@ func genC11World(r *rand.Rand, scenario string) *World {
 	case "canary-time":
 		e.Strategy.Canary = &CanaryDef{Replicas: "1", Duration: "2m", NoRestartsDuration: "1m"}
 	case "canary-validate":
-		e.Strategy.Canary = &CanaryDef{Replicas: pick(r, "1", "2"), ValidationMode: "manual"}
+		// "100%": the canary already runs everywhere, so the promotion changes nothing but the roles
+		// and the status is final after its first write
+		e.Strategy.Canary = &CanaryDef{Replicas: pick(r, "1", "2", "100%", "100%"), ValidationMode: "manual"}
 	case "canary-fail":
 		e.Strategy.Canary = &CanaryDef{Replicas: "1", Duration: "30m"}
 	case "canary-fail-late":
@@ -280,6 +283,9 @@ func multiC11(t *testing.T, p *Profile, seed uint64, tier string, idx int, repla
 		}
 		if res.sim.faultsFired == 0 {
 			agg.Probes["c11.fault-not-reached"]++
+		}
+		if os.Getenv("VERIF_LOG") == "2" {
+			fmt.Printf("C11RUN %s k=%d %s fired=%d final=%s\n", scen, k, kind, res.sim.faultsFired, res.sim.finalState)
 		}
 		for _, v := range res.Violations {
 			key := v.Prop + "/" + v.Monitor + "/" + v.Sig
